@@ -136,6 +136,8 @@ def lines_for(tree, rng):
             if not use_alias:
                 # options in front of the path: there are no leading tokens, whatever follows
                 out.append((["-x"] + names + fill, "option-before-path"))
+                out.append((["-xyz"] + names + fill, "short-cluster-before-path"))
+                out.append((["-x5"] + names + fill, "short-with-value-before-path"))
                 out.append((["--zz=1"] + names, "long-option-before-path"))
                 if n["opts"]:
                     o = n["opts"][0]
@@ -192,8 +194,34 @@ def outcome_of_parse(env, cmd, raw):
         return ("exc", type(e).__name__, str(e))
 
 
+def wellformed_path(tree, toks):
+    """The canonical names of the command a line spells when the line is, by construction, exactly a path of names /
+    aliases followed by one value per required argument along it (and no node on the path wants more): such a line
+    is well-formed for that command whatever the parser says.  None for any other line."""
+    nodes, path = tree, []
+    i = 0
+    while i < len(toks):
+        n = lookup(nodes, toks[i])
+        if n is None:
+            break
+        path.append(n)
+        nodes = n["subs"]
+        i += 1
+    if not path or any(t.startswith("-") or t == "" for t in toks):
+        return None
+    if any(a["kind"] == "req" and a["multi"] for n in path for a in n["args"]):
+        return None
+    if list(toks[i:]) != T.positional_fill(path):
+        return None
+    return [n["name"] for n in path]
+
+
 def judge_line(sh, env, app, log, tree, toks, rec):
-    raw = env.ArgvArgs(["prog"] + list(toks))
+    argv = ["prog"] + list(toks)
+    raw = env.ArgvArgs(argv)
+    if argv != ["prog"] + list(toks):
+        sh.violate("argv-list-changed", rec, "wrapping the list %r as ArgvArgs changed it to %r" % (["prog"] + list(toks), argv))
+        return
 
     def parsable(path):
         try:
@@ -219,8 +247,26 @@ def judge_line(sh, env, app, log, tree, toks, rec):
         sh.violate("resolve-exception-type", rec, "resolve_command raised %r" % (e,))
         return
     sh.count("resolutions")
+    try:
+        r2 = app.resolve_command(env.ArgvArgs(argv))
+        again = ("cmd", r2.command.full_name.split(" "))
+    except env.CRC as e:
+        again = ("cannot-resolve", str(e))
+    except (env.CPA, env.NSO, ValueError) as e:
+        again = ("exc", type(e).__name__, str(e))
+    except Exception as e:
+        again = ("other", repr(e))
+    if again != got:
+        sh.violate("same-list-twice", rec, "the same argv list wrapped a second time resolves to %r, the first time to %r" % (again, got))
+        return
+    sh.count("second_wraps")
     if want[0] == "cmd":
         po = outcome_of_parse(env, T.find_command(app, want[1]), raw)
+        if po[0] == "exc" and wellformed_path(tree, toks) == want[1]:
+            sh.violate("wellformed-line-rejected", rec, "the line is the path %r plus one value per required argument, its command rejects it: %r (resolution: %r)" % (want[1], po, got))
+            return
+        if po[0] == "ok":
+            sh.count("wellformed_accepted" if wellformed_path(tree, toks) == want[1] else "other_accepted")
         if po[0] == "exc":
             if got != po:
                 sh.violate("selection", rec, "expected %r whose format rejects the line with %s; got %r" % (want[1], po[1], got))
@@ -364,7 +410,7 @@ def run(sh, spec):
 def finalize(tier, merged):
     c = merged["counters"]
     inc = []
-    for k in ("resolutions", "selected", "undefined", "undefined_runs", "selected_but_unparsable"):
+    for k in ("resolutions", "selected", "undefined", "undefined_runs", "selected_but_unparsable", "wellformed_accepted", "second_wraps"):
         if not c.get(k):
             inc.append("counter %s is zero" % k)
     return {"inconclusive": inc}
